@@ -7,7 +7,7 @@ PROP_FILE = 'C07'
 
 
 def mons():
-    return [M.m_terminates, M.m_cancel, M.m_multipart_discipline, M.m_files]
+    return [M.m_terminates, M.m_cancel, M.m_multipart_discipline, M.m_files, M.m_success_means_all_ok]
 
 
 def specs(ctx):
@@ -22,6 +22,9 @@ def specs(ctx):
             s.append(dict(transfers=[ts, dict(sysrun.KINDS[(i + 3) % len(sysrun.KINDS)])],
                           cfg=dict(sysrun.CFG_SMALL, max_request_concurrency=1, max_submission_concurrency=1),
                           chooser=sysrun.chooser(rng, i), cancel=dict(how='exit_wait_kbi', at=at)))
+    # serial mode (executor_cls=NonThreadedExecutor): Ctrl-C arrives inside a request made in the caller's own
+    # thread; it must abort the call, never be parked in a task's future and followed by a reported success
+    s += sysrun.specs_nonthreaded_interrupt(ctx, sysrun.KINDS[:: (1 if ctx.thorough() else 2)])
     return s
 
 
